@@ -10,7 +10,7 @@ import os
 ROOT = os.path.dirname(os.path.dirname(os.path.abspath(__file__)))
 
 CHECKS = {
-    "C01": ("model_checking", "E1", "explicit-state BFS over event histories on real gateways (5 versions x serial/MQTT), then a probe corpus of next lines in every distinct state",
+    "C01": ("model_checking", "E1+E2", "explicit-state BFS over event histories on real gateways (versions x serial/MQTT/asyncio), a probe corpus of next lines in every distinct state; plus preemption-bounded schedules of a controller thread / link failure against the poll thread",
             "No exception, pump alive and no effect for rejected lines in every reachable state within the completed depth, for every probe of the corpus.",
             "fake connection / MQTT callbacks; reference validator R-VALID decides 'rejected'; bounded depth and alphabets (DESIGN 5/C01, 8)"),
     "C02": ("exploration", "E5", "bounded-exhaustive input enumeration against an independent codec",
@@ -25,7 +25,7 @@ CHECKS = {
     "C05": ("model_checking", "E1", "explicit-state BFS, reply projection compared with the reference model; every emitted line re-validated independently",
             "Per-step emission list equals the prescribed replies for all histories up to the completed depth; every emitted line canonical, valid for the version, correctly addressed.",
             "R-MODEL reply rules; virtual clock with non-zero UTC offset; ack flag of replies not prescribed"),
-    "C06": ("model_checking", "E1", "explicit-state BFS over id requests / presentations / ticks / stop-restart on real persistence files, history variable of ids handed out",
+    "C06": ("model_checking", "E1+E2+E4", "explicit-state BFS over id requests / presentations / (failing) ticks / stop-restart on real persistence files with the history variable 'ids handed out'; preemption-bounded schedules of stop() against an id request (serial, MQTT); asyncio restarts with every executor completion order on the virtual loop",
             "No id response outside 1..254, for a known node, or repeating an earlier id, in any history up to the completed depth incl. restarts, both formats.",
             "real files in a scratch directory, fake Timer fired by TICK events"),
     "C07": ("model_checking", "E1", "explicit-state BFS over 2-node histories; invariant on the destination of every emitted line relative to its cause",
@@ -49,13 +49,13 @@ CHECKS = {
     "C13": ("fault_enumeration", "E3", "every truncation offset and zero-fill of main x backup variants, both formats",
             "start_persistence never raises and yields main's state, else backup's, else empty, for every enumerated damage pattern.",
             "damage model: truncation and zero-fill only"),
-    "C14": ("model_checking", "E1", "explicit-state BFS with ticks at every position; stop()+fresh start evaluated in every distinct state",
+    "C14": ("model_checking", "E1+E4", "explicit-state BFS with (failing) ticks at every position; stop()+fresh start evaluated in every distinct state, threaded gateway and asyncio gateway on the virtual loop",
             "Projection before stop() equals projection after restart in every state up to the completed depth, 5 versions x 2 formats.",
             "real files, fake Timer"),
     "C15": ("fault_enumeration", "E3+E2+E4", "fault at every operation of every save in a tick sequence (sync and asyncio); every preemption point of a save against a concurrent message",
             "After every enumerated failing save: previous file loadable, state still dirty, schedule alive, next save persists the current state.",
             "fake Timer / virtual loop; fault = OSError at one file operation"),
-    "C16": ("model_checking", "E2", "stateless exploration of thread interleavings at source-line granularity with preemption bounding (CHESS-style) on the real transport code",
+    "C16": ("model_checking", "E2", "stateless exploration of thread interleavings at source-line granularity with preemption bounding (CHESS-style) on the real SyncTransport/SyncTasks/TCPTransport code, eight harnesses",
             "No schedule up to the preemption bound makes send raise, write twice, or write to a closed connection; queued commands sent exactly once in order.",
             "baton scheduler over sys.settrace line events; fake connection objects; bound reported in evidence"),
     "C17": ("model_checking", "E5+E1", "bounded-exhaustive prefix x message x qos round trips and topic acceptance against an independent topic codec; BFS over subscription histories",
@@ -64,10 +64,10 @@ CHECKS = {
     "C18": ("exploration", "E5", "exhaustive enumeration of option subsets for six gateway classes and of 260+ version strings against the numeric floor rule",
             "Every option subset constructs and takes effect; every version string selects the numeric floor version, in both construction orders.",
             "effect probes on fake devices"),
-    "C19": ("model_checking", "E1/E4", "all segmentations (<=2 cuts, bytewise, 120-byte) of byte streams x pump schedules x flavours, differential against a whole-line reference run",
+    "C19": ("model_checking", "E1/E4", "all segmentations (<=2 cuts, bytewise, 120-byte) of byte streams x pump schedules x flavours (asyncio protocol, threaded protocol, real TCP reader loop), differential against a whole-line reference run",
             "Final state and ordered emissions identical for every enumerated segmentation, schedule and flavour.",
             "stream alphabet of DESIGN 5/C19"),
-    "C20": ("model_checking", "E2+E4", "environment-answer sequences up to a deviation bound on a virtual loop / controlled scheduler, four gateway kinds; probe-latency patterns on a virtual clock",
+    "C20": ("model_checking", "E2+E4", "BFS over environment-event sequences up to a deviation bound on the virtual loop (asyncio kinds); environment scripts under the controlled scheduler (threaded kinds, real connect/reader/poll threads); probe-latency patterns on a virtual clock for both flavours",
             "Callback, attempt and write counters and virtual-time bounds hold for every enumerated environment sequence.",
             "fake devices per appendix B; virtual clock"),
 }
@@ -107,14 +107,14 @@ def main():
         },
         "engines": [
             {"name": "E1", "path": "mc/explore.py", "serves_properties": ["C01", "C04", "C05", "C06", "C07", "C08", "C10", "C11", "C14", "C17", "C19"], "kind_free_text": "explicit-state BFS over event histories replayed on real gateways, canonical state matching"},
-            {"name": "E2", "path": "mc/sched.py", "serves_properties": ["C15", "C16", "C20"], "kind_free_text": "controlled thread scheduler, preemption-bounded stateless exploration"},
+            {"name": "E2", "path": "mc/sched.py", "serves_properties": ["C01", "C06", "C15", "C16", "C20"], "kind_free_text": "controlled thread scheduler, preemption-bounded stateless exploration"},
             {"name": "E3", "path": "mc/fsfault.py", "serves_properties": ["C12", "C13", "C15"], "kind_free_text": "file-operation crash/fault enumerator over a real scratch directory"},
-            {"name": "E4", "path": "mc/vloop.py", "serves_properties": ["C15", "C19", "C20"], "kind_free_text": "virtual asyncio loop, environment events chosen by the explorer"},
+            {"name": "E4", "path": "mc/vloop.py", "serves_properties": ["C06", "C10", "C14", "C15", "C20"], "kind_free_text": "virtual asyncio loop, environment events chosen by the explorer"},
             {"name": "E5", "path": "mc/checks", "serves_properties": ["C02", "C03", "C09", "C17", "C18"], "kind_free_text": "bounded-exhaustive input enumeration against independent references"},
         ],
         "checks": checks,
         "not_applicable": na,
-        "notes": "All checks run /repo's working tree via ./check (fresh interpreter, PYTHONHASHSEED=0). Known findings: /verif/known_findings.json.",
+        "notes": "All checks run /repo's working tree via ./check (fresh interpreter, PYTHONHASHSEED=0). Known findings: /verif/known_findings.json (one known finding: C19 threaded emission order; 18 fixed). Seeded changes and which check catches which: /verif/seeded and DESIGN.md section 12. VERIF_REPO / VERIF_EVIDENCE_DIR are used only by tools/try_seed.py to point a check at a scratch worktree.",
     }
     with open(os.path.join(ROOT, "MANIFEST.json"), "w", encoding="utf-8") as fh:
         json.dump(manifest, fh, indent=1)
